@@ -26,7 +26,32 @@ def aEmpty (a : Adder) : Nat := if aPre a ∧ a.gts = [] then 1 else 0
 def aBadShard (size : Nat) (a : Adder) : Nat :=
   if (a.pc = .lock ∨ a.pc = .append ∨ a.pc = .unlock ∨ a.pc = .lLock ∨ a.pc = .lWrite) ∧ size ≤ a.shard then 1 else 0
 /-- not finished -/
-def aLive (a : Adder) : Nat := if a.pc = .done ∨ a.pc = .panicked then 0 else 1
+def aLive (a : Adder) : Nat := if a.pc = .done then 0 else 1
+
+/-! ### a new Add call counts for nothing but its getters -/
+
+@[simp] theorem aPend_new (sh f n : Nat) : aPend sh (newAdder f n) = 0 := by
+  by_cases h : n = 0 <;> simp [aPend, newAdder, h]
+@[simp] theorem aBetw_new (f n : Nat) : aBetw (newAdder f n) = 0 := by
+  by_cases h : n = 0 <;> simp [aBetw, newAdder, h]
+@[simp] theorem aLL_new (f n : Nat) : aLL (newAdder f n) = 0 := by
+  by_cases h : n = 0 <;> simp [aLL, newAdder, h]
+@[simp] theorem aLk_new (sh f n : Nat) : aLk sh (newAdder f n) = 0 := by
+  by_cases h : n = 0 <;> simp [aLk, newAdder, h]
+@[simp] theorem aRun_new (f n : Nat) : aRun (newAdder f n) = 0 := by
+  by_cases h : n = 0 <;> simp [aRun, newAdder, h]
+@[simp] theorem aSpawn_new (f n : Nat) : aSpawn (newAdder f n) = 0 := by
+  by_cases h : n = 0 <;> simp [aSpawn, newAdder, h]
+@[simp] theorem aGts_new (id f n : Nat) : aGts id (newAdder f n) = (List.range' f n).count id := by
+  by_cases h : n = 0 <;> simp [aGts, aPre, newAdder, h]
+@[simp] theorem aEmpty_new (f n : Nat) : aEmpty (newAdder f n) = 0 := by
+  by_cases h : n = 0
+  · simp [aEmpty, aPre, newAdder, h]
+  · cases n with
+    | zero => contradiction
+    | succ m => simp [aEmpty, aPre, newAdder, List.range'_succ]
+@[simp] theorem aBadShard_new (size f n : Nat) : aBadShard size (newAdder f n) = 0 := by
+  by_cases h : n = 0 <;> simp [aBadShard, newAdder, h]
 
 /-! ### derived quantities of a state -/
 
@@ -40,6 +65,21 @@ def wHoldEntry (s : S) (sh : Nat) : Nat := if (s.wpc = .lock ∨ s.wpc = .swap) 
 /-- the loop worker holds the lock of shard `sh` -/
 def wLk (s : S) (sh : Nat) : Nat := if (s.wpc = .swap ∨ s.wpc = .unlock) ∧ s.shared = sh then 1 else 0
 def inSwap (s : S) (id : Nat) : Nat := if s.wpc = .unlock ∨ s.wpc = .dealCall then s.swap.count id else 0
+/-- the Close call that won the CAS holds the lock of shard `sh` -/
+def cLk (s : S) (sh : Nat) : Nat := if (s.cwin = some .read ∨ s.cwin = some .unlock) ∧ s.cShard = sh then 1 else 0
+/-- how often getter `id` is queued or has been handled (it never leaves these places) -/
+def qh (s : S) (id : Nat) : Nat :=
+  s.getters.flatten.count id + inSwap s id + s.work.count id + s.skipped.count id + s.invoked.count id
+/-- the shards below this index have been found empty by the `drained` call in progress (all of them once it has passed) -/
+def scanned (s : S) : Nat :=
+  match s.cwin with
+  | some .cas => 0
+  | some .lock => s.cShard
+  | some .read => s.cShard
+  | some .unlock => if s.cN = 0 then s.cShard + 1 else 0
+  | some .trig => s.size
+  | some .store => s.size
+  | none => if 0 < s.closeOk then s.size else 0
 
 /-! ### the invariant groups -/
 
@@ -68,22 +108,16 @@ namespace Netpoll.Shard
 structure GStruct (s : S) : Prop where
   s1 : s.list.length = s.size ∧ s.locks.length = s.size ∧ s.getters.length = s.size
   s2 : tally (aBadShard s.size) s.adders = 0
+  s3 : (s.cwin = some .lock ∨ s.cwin = some .read ∨ s.cwin = some .unlock) → s.cShard < s.size
 
 /-- lock words count their holders (so the critical sections are exclusive) -/
 structure GLock (s : S) : Prop where
-  l1 : ∀ (sh v : Nat), s.locks[sh]? = some v → v = tally (aLk sh) s.adders + wLk s sh
+  l1 : ∀ (sh v : Nat), s.locks[sh]? = some v → v = tally (aLk sh) s.adders + wLk s sh + cLk s sh
   l2 : s.listLock = tally aLL s.adders
   l3 : ∀ (sh v : Nat), s.locks[sh]? = some v → v ≤ 1
   l4 : s.listLock ≤ 1
 
-theorem shardOf_lt {i n sh : Nat} (hn : 0 < n) (h : shardOf i n = some sh) : sh < n := by
-  simp only [shardOf] at h
-  split at h
-  · cases h
-  · rename_i hneg
-    cases h
-    have h1 : Int.tmod (wrap32 i) (n : Int) < (n : Int) := Int.tmod_lt_of_pos _ (by omega)
-    omega
+theorem shardOf_lt {i n : Nat} (hn : 0 < n) : shardOf i n < n := Nat.mod_lt _ hn
 
 end Netpoll.Shard
 
@@ -112,7 +146,7 @@ structure GIds (s : S) : Prop where
   i0 : (s.wpc ≠ .isAct ∧ s.wpc ≠ .deal) → s.work = []
   i0' : s.wpc = .deal → s.work ≠ []
   i1 : ∀ (id : Nat), tally (aGts id) s.adders + s.getters.flatten.count id + inSwap s id + s.work.count id
-         + s.ignored.count id + s.lost.count id + s.skipped.count id + s.invoked.count id
+         + s.ignored.count id + s.skipped.count id + s.invoked.count id
          = (if id < s.nextId then 1 else 0)
   i2 : ∀ (id : Nat), s.invoked.count id = s.notApp.count id + s.wbuf.count id + s.sent.count id
   i3 : s.alive = true → s.wbuf ≠ [] →
@@ -126,19 +160,17 @@ namespace Netpoll.Shard
 /-- small monotonicity facts -/
 structure GMisc (s : S) : Prop where
   m1 : s.alive = true → s.skipped = []
-  m2 : s.idx < 2147483648 → s.lost = [] ∧ s.panics = 0
-  m3 : s.state = active → s.ignored = [] ∧ s.closeOk = 0 ∧ s.cState + s.cTrig + s.cStore = 0
+  m3 : s.state = active → s.ignored = [] ∧ s.closeOk = 0 ∧ s.cwin = none ∧ s.closeSnap = []
   m4 : s.state = 0 ∨ s.state = 1 ∨ s.state = 2
+  m5 : s.cwin ≠ some .cas
 
-theorem wrap32_of_lt {i : Nat} (hi : i < 2147483648) : wrap32 i = (i : Int) := by
-  have h1 : i % 4294967296 = i := Nat.mod_eq_of_lt (by omega)
-  simp only [wrap32, h1, hi, if_true]
-
-theorem shardOf_some_of_lt {i n : Nat} (hi : i < 2147483648) : shardOf i n ≠ none := by
-  have : (0 : Int) ≤ Int.tmod (i : Int) (n : Int) := Int.tmod_nonneg _ (by omega)
-  simp only [shardOf, wrap32_of_lt hi]
-  split
-  · omega
-  · simp
+/-- `Close` waits: the getters that were queued when the winning `Close` did its CAS (`closeSnap`) stay
+    queued or handled (`c2`), are in no shard that the `drained` call in progress has already found
+    empty (`c1`), and are not with the worker any more once `drained` has seen `trigger = 0` (`c3`) -/
+structure GClose (s : S) : Prop where
+  c1 : ∀ (id : Nat), id ∈ s.closeSnap → ∀ (sh : Nat) (g : List Nat), sh < scanned s → s.getters[sh]? = some g → g.count id = 0
+  c2 : ∀ (id : Nat), id ∈ s.closeSnap → 0 < qh s id
+  c3 : (s.cwin = some .store ∨ 0 < s.closeOk) → ∀ (id : Nat), id ∈ s.closeSnap → inSwap s id + s.work.count id = 0
+  c4 : 0 < s.closeOk → s.cwin = none
 
 end Netpoll.Shard
